@@ -35,8 +35,9 @@ m={
  "setup_cmd":"./setup.sh",
  "hooks":{"guard":"verif","enable":"none needed: every seam of pub is an application interface implemented by /verif/apmodel; astool/transport nondeterminism is taken over by build-time `go build -overlay` rewrites generated from the current sources; nothing is committed to /repo for instrumentation","baseline_off_cmd":"/verif/baseline.sh","source_commits":[],"add_only":True},
  "engines":[
-  {"name":"mc","path":"/verif/mc","serves_properties":sorted(C),"kind_free_text":"hand-written explorer: choice-sequence DFS with per-kind deviation budgets (preemptions, faults, environment answers), cooperative scheduler for real goroutines, visited-state pruning"},
-  {"name":"apmodel","path":"/verif/apmodel","serves_properties":sorted(C),"kind_free_text":"in-memory ActivityPub application implementing every pub interface; each seam call is a choice point and a monitored log entry"}
+  {"name":"mc","path":"/verif/mc","serves_properties":[k for k in sorted(C) if C[k]["engine"]=="mc"],"kind_free_text":"hand-written explorer: choice-sequence DFS with per-kind deviation budgets (preemptions, faults, environment answers), cooperative scheduler for real goroutines, visited-state pruning"},
+  {"name":"onto","path":"/verif/onto","serves_properties":[k for k in sorted(C) if C[k]["engine"]=="onto"],"kind_free_text":"ontology oracle computed from astool/*.jsonld with encoding/json only, plus cmd/mkbind which generates the reflection binding table the streams checks are compiled against"},
+  {"name":"apmodel","path":"/verif/apmodel","serves_properties":[k for k in sorted(C) if C[k]["engine"]=="mc"],"kind_free_text":"in-memory ActivityPub application implementing every pub interface; each seam call is a choice point and a monitored log entry"}
  ],
  "checks":[C[k] for k in sorted(C)],
  "not_applicable":[{"property_id":i,"reason":"check not built yet in this revision (work in progress; see DESIGN.md section 3 for the plan)"} for i in sorted(pending)],
